@@ -44,7 +44,14 @@ class OuterClosed(param.Parameterized):
         super().__init__(a=a, b=b)
 
 
-CLS = {"kw": OuterKw, "pos2": OuterPos2, "poskw": OuterPosKw, "closed": OuterClosed}
+class OuterKwOnly(param.Parameterized):
+    locals().update(_params())
+
+    def __init__(self, a, *, b=7):
+        super().__init__(a=a, b=b)
+
+
+CLS = {"kw": OuterKw, "pos2": OuterPos2, "poskw": OuterPosKw, "closed": OuterClosed, "kwonly": OuterKwOnly}
 NAN = float("nan")
 
 
